@@ -27,7 +27,7 @@ def run(chk):
     shards = 16
     relabels = vf.tier_n(chk.tier, 6, 20)
     classes = vf.tier_n(chk.tier, 14, 200)
-    rnd = vf.tier_n(chk.tier, 6, 120)
+    rnd = vf.tier_n(chk.tier, 6, 60)
     h = vf.build_harness("asan", "c16")
     env = vf.lib_env("asan")
     chk.rule = RULE
